@@ -156,3 +156,56 @@ def run(ctx):
     par = P.reach_fns([pp.path])
     bad = [p for p in par if any(k in E.direct(p) for k in ('FsWrite', 'FsRead', 'ProcSpawn'))]
     ctx.ob('C12.3', pp, 'parser-is-pure', not bad, 'Patch::parse touches no file (%d functions reachable)' % len(par), line=pp.line)
+
+    # ---------------------------------------------------------------- C12.5
+    ctx.rule('C12.5', 'rollback visits every entry: the loop of revert_paths over the undo entries leaves only at iterator exhaustion — an I/O error on one entry (a created file that is already gone, an unwritable directory) must not abort the restoration of the others.')
+    from ..core import switches as _sw
+    lps = rp.loops()
+    if not lps:
+        raise CheckError('C12.5: revert_paths has no loop over the undo entries')
+    h, body = max(lps.items(), key=lambda kv: len(kv[1]))
+    exits = [(a, b) for a in body for b in rp.succs(a) if b not in body and rp.blocks[b]['t']['k'] != 'unreachable']
+    bad = []
+    for (a, b) in exits:
+        t = rp.blocks[a]['t']
+        ok = False
+        if t['k'] == 'switch':
+            o = rp.origin(t['on'])
+            if o[0] == 'rv' and o[1]['k'] == 'discr':
+                d1 = rp.single_def(o[1]['pl']['l'])
+                ok = bool(d1 and d1[2] == 'call' and re.search(r'Iterator>::next$|Iterator::next$', (d1[3]['f'].get('r') or d1[3]['f'].get('p') or '')))
+        if not ok:
+            bad.append((a, b))
+    ctx.ob('C12.5', rp, 'revert-visits-every-entry', not bad,
+           'the restore loop %s' % ('ends only when the undo list is exhausted' if not bad else
+                                    'can be LEFT EARLY (a `?` / return inside it, line %s): one failing entry leaves every later entry un-restored — the failed patch stays half applied' % rp.blocks[bad[0][0]]['t'].get('ln')),
+           line=rp.blocks[bad[0][0]]['t'].get('ln') if bad else rp.line)
+
+    # ---------------------------------------------------------------- C12.6
+    ctx.rule('C12.6', 'the success result names what was touched: every file mutation in the operation closure (write / remove / rename of a safe_join result) is followed, on every non-error path to the next operation, by a push into the changed-files list of the patch-relative path that was resolved into it.')
+    joins = {}
+    for j in op_cl.calls(r'Workspace::safe_join$'):
+        x = op_cl.root_local(j.args[1], through_calls=(r'::as_ref$', r'::deref$', r'::as_path$'))
+        d0 = j.dest['l']
+        # the resolved PathBuf after `?`
+        joins[d0] = x
+    pushes6 = op_cl.calls(r'alloc::vec::Vec::push$', full=r'Vec::<alloc::string::String>::push')
+    errs6 = [s_.bb for s_ in op_cl.calls(r'FromResidual<.*>>::from_residual$')] + [bi for (bi, si, st) in op_cl.aggregates(r'^core::result::Result$', 'Err')]
+    n6 = 0
+    for mu in muts:
+        for pi in ([0, 1] if mu.name == 'rename' else [0]):
+            # which safe_join produced this path?
+            rl = reads_locals(op_cl, mu.args[pi])
+            xs = {x for d0, x in joins.items() if d0 in rl and x is not None}
+            if len(xs) != 1:
+                continue
+            x = next(iter(xs))
+            n6 += 1
+            pbs = [p_.bb for p_ in pushes6 if x in reads_locals(op_cl, p_.args[1])]
+            h6 = op_cl.innermost_loop(mu.bb)
+            targets = list(op_cl.returns()) + ([h6] if h6 is not None else [])
+            ok = bool(pbs) and op_cl.must_pass(pbs + errs6, mu.bb, targets) if not any(op_cl.dom(b, mu.bb) for b in pbs) else True
+            ctx.ob('C12.6', op_cl, 'reported:%s#%d' % (mu.name, pi), ok,
+                   '%s of the path resolved from `%s` %s' % (mu.name, op_cl.lname(x), 'is reported in the changed-files list on every successful path' if ok else
+                                                        'is NOT reported on some successful path: the result of a successful patch no longer names every file it touched'), line=mu.line)
+    ctx.floor('C12.6', 'mutations of resolved patch paths', n6, 4)
